@@ -341,6 +341,12 @@ def run(ctx):
     if lines:
         ctx.sample(dict(kind="controller-replay", op=lines[0][:200], model=outs[0][:160]))
 
+    # adaptive explicit runs judged step by step (own random stream): whatever was rejected and retried, every recorded state is its
+    # predecessor advanced by ONE step of the scheme over the recorded interval (DV.Run.ysOf)
+    import random as _random, runsim
+    runsim.adaptive_steps_block(ctx, _random.Random(ctx.seed * 7919 + 5), 3 if ctx.quick() else 20)
+
+
 
 def replay(rep):
     return False
